@@ -790,6 +790,35 @@ func runC08(cx *CheckCtx) {
 			cx.decide(okB, "retention", "netmap.UpdateSnapshotCount/drop-range", "drops the epochs cur−old+1 … cur−new (inclusive), i.e. exactly those NewEpoch would have dropped with the new count",
 				"the drop loop does not cover [cur−old+1, cur−new]:"+detail+" — NewEpoch keeps epochs (e−N, e], so an epoch outside the new window stays readable for ever (or a retained one is dropped)", drop.Where(w))
 			_ = keepLower
+			// the ring index stays inside the ring: at every exit the stored snapshotCurrent is
+			// < the new count (necessary for the next tick and for Snapshot to address a stored slot)
+			var curPut *Site
+			var idRead *Term
+			for _, s := range a.RealEffects() {
+				if kk, _ := s.Args[1].BytesConst(); s.Effect == "put" && kk == "snapshotCurrent" {
+					curPut = s
+				}
+			}
+			for _, s := range a.Sites(func(s *Site) bool { return s.Callee == "storage.Get" }) {
+				if kk, _ := s.Args[1].BytesConst(); kk == "snapshotCurrent" {
+					idRead = s.Val
+				}
+			}
+			okRange := curPut != nil && idRead != nil && old != nil
+			if okRange {
+				// the rewritten index is count − 1
+				if curPut.Args[2] != tb.binop(token.SUB, count, tb.constInt(1), intType) {
+					okRange = false
+				}
+				ltIdCount := a.litLt(idRead, count)
+				ltOldCount := a.litLt(old, count) // growing: id < old (induction hypothesis) < count
+				for _, ex := range a.Exits() {
+					if !a.holdsAt(ex.State, a.eLit(curPut), ltIdCount, ltOldCount) {
+						okRange = false
+					}
+				}
+			}
+			cx.decide(okRange, "ring-index", "netmap.UpdateSnapshotCount/in-range", "at every exit the stored ring index is < the new count (rewritten to count − 1, or id < count established, or the ring grew)", "UpdateSnapshotCount can return with snapshotCurrent ≥ the new count: the current map's slot is deleted/out of range, netmap() and snapshot(0) answer with nothing or another epoch's map", w.pos(m.Fn.Pos()))
 			// the count is written before it is used and the old one read before the write
 			var cput *Site
 			for _, s := range a.RealEffects() {
